@@ -76,6 +76,17 @@ def _round_raises(argtypes):
     return [VE, OFE]  # round(nan) ValueError, round(inf) OverflowError
 
 
+def _executor_raises(argtypes):
+    return [OSE] if any(a and ("PathLike" in a or "StrOrBytesPath" in a or "StrPath" in a or "FileDescriptor" in a) for a in argtypes) else []
+
+
+def _deepcopy_raises(argtypes):
+    a = _num_arg(argtypes)
+    if a is None or "Any" in a or a in ("builtins.object", "object"):
+        return [RE_]
+    return []
+
+
 def _max_raises(argtypes):
     return [VE]  # empty iterable; discharged by a non-empty guard (EEA)
 
@@ -225,6 +236,7 @@ SUMMARIES: dict[str, Summary] = {
     "aiomqtt.client.Client.publish": Summary([MQTTE], "client.py publish: MqttCodeError/MqttError (timeout)"),
     "aiomqtt.client.Client.subscribe": Summary([MQTTE], "client.py subscribe: MqttCodeError/MqttError (timeout)"),
     "aiomqtt.client.MessagesIterator.__anext__": Summary([MQTTE], "client.py messages iterator: MqttError when the connection is lost"),
+    "aiomqtt.client.Client.messages.__anext__": Summary([MQTTE], "Client.messages is the MessagesIterator above (reached through an interface type)"),
     # ---- exceptions as callables
     "builtins.RuntimeError": Summary(NONE, "constructor"),
     "builtins.ValueError": Summary(NONE, "constructor"),
@@ -295,8 +307,18 @@ SUMMARIES.update(
         "os.path.join": Summary(NONE, "total for str paths"),
         "os.path.dirname": Summary(NONE, "total"),
         "os.path.basename": Summary(NONE, "total"),
+        "_asyncio.get_running_loop": Summary(["builtins.RuntimeError"], "no running loop (never inside a coroutine)"),
+        "_asyncio.get_event_loop": Summary(["builtins.RuntimeError"], "no current loop (never inside a coroutine)"),
+        "_asyncio.current_task": Summary(["builtins.RuntimeError"], "no running loop (never inside a coroutine)"),
+        "asyncio.tasks.current_task": Summary(["builtins.RuntimeError"], "no running loop (never inside a coroutine)"),
+        "_asyncio.Task.cancelling": Summary(NONE, "total"),
+        "_asyncio.Task.uncancel": Summary(NONE, "total"),
+        "_asyncio.Task.cancelled": Summary(NONE, "total"),
+        "_asyncio.Task.done": Summary(NONE, "total"),
+        "asyncio.events.AbstractEventLoop.run_in_executor": Summary(_executor_raises, "the callable's exceptions surface at the await: OSError when a file-system function (a parameter of path type) is handed over; the repository never shuts an executor down"),
+        "asyncio.base_events.BaseEventLoop.run_in_executor": Summary(_executor_raises, "as above"),
         "copy.copy": Summary(NONE, "shallow copy of repo objects"),
-        "copy.deepcopy": Summary(NONE, "deep copy of repo objects"),
+        "copy.deepcopy": Summary(_deepcopy_raises, "deepcopy recurses in Python frames (about two per nesting level): data of unbounded depth (Any - e.g. a parsed JSON document, which json.loads accepts far deeper than the interpreter's recursion limit allows here) raises RecursionError; repository objects and flat typed containers do not"),
         "tempfile.mkstemp": Summary([OSE], "file creation"),
         "builtins.open": Summary([OSE], "file open"),
         "builtins.vars": Summary([TE], "vars(obj) without __dict__"),
